@@ -387,7 +387,8 @@ def explore_shard(acc, shard):
     elif kind == "roundtrip":
         _, first, max_opt = shard
         layer = "round trip SM -> SSC -> SM"
-        ssc_only = {"WARPS", "VERSION", "LABELS"}
+        # properties that only the SSC format has are refused on the way back by the default policy: not part of this clause
+        ssc_only = set(MC.SIMFILE_KIND)
         allowed = [i for i, (k, _) in enumerate(c16.OPTIONAL) if k not in ssc_only and _ is not None]
 
         if first is None:
